@@ -9,7 +9,8 @@ C28 op lines (keys, regions, versions, values are decimal numbers):
                              defines the transaction and starts the client (blocked at RPC 0)
   deliver | drop | lose | notleader | redeliver <i> | restart      (TwoPC.lean `Op`)
   check <cur> | resolve <k>,<k>,…                                   resolver steps
-  foreign <k> <fts> <ttl> <v> | foreignabort <k> <fts>              another transaction prewrites / is rolled back on a key
+  foreign <k> <fts> <ttl> <v> | foreignabort <k> <fts> | foreigncommit <k> <fts> <fcv>
+  | foreignresolve <k> <fts> <fcv> | foreigncheck <k> <fts> <cur>   requests of another transaction on one key
   get <k> <version>
   observe                    reads every key of the transaction at its commit version; the spec
                              column is the atomicity statement of C28 (all new or none new, and
@@ -251,21 +252,39 @@ def step' (st : St) (toks : List String) : St × String :=
         | _ => "skip"
       ({ st with sys := some y' }, res ++ "\t*")
     | none => (st, "bad-op")
+  -- requests of another transaction (start ts `fts`) on one key, through the real store on the other side
   | ["foreign", k, fts, ttl, v] => withSys st fun t y =>
     match natOf? k, natOf? fts, natOf? ttl, natOf? v with
     | some k, some fts, some ttl, some v =>
-      if fts = t.start ∨ !(t.muts.any (fun m => m.key = k)) then (st, "skip\t*")
-      else
-        let e := (prewriteKey fts ttl ⟨k, .put, v⟩ (y.store k)).2
-        let y' := step st.cfg t y (.foreign k fts ttl v)
-        ({ st with sys := some y' }, (if e = .ok then "ok" else "err:" ++ e.str) ++ "\t*")
+      let e := (prewriteKey fts ttl ⟨k, .put, v⟩ (y.store k)).2
+      let y' := step st.cfg t y (.other (.prewrite ⟨k, .put, v⟩ fts ttl))
+      ({ st with sys := some y' }, (if e = .ok then "ok" else "err:" ++ e.str) ++ "\t*")
     | _, _, _, _ => (st, "bad-op")
   | ["foreignabort", k, fts] => withSys st fun t y =>
     match natOf? k, natOf? fts with
-    | some k, some fts =>
-      if fts = t.start ∨ fts = t.cv ∨ !(t.muts.any (fun m => m.key = k)) then (st, "skip\t*")
-      else ({ st with sys := some (step st.cfg t y (.foreignAbort k fts)) }, "ok\t*")
+    | some k, some fts => ({ st with sys := some (step st.cfg t y (.other (.rollback k fts))) }, "ok\t*")
     | _, _ => (st, "bad-op")
+  | ["foreigncommit", k, fts, fcv] => withSys st fun t y =>
+    match natOf? k, natOf? fts, natOf? fcv with
+    | some k, some fts, some fcv =>
+      let e := (commitReqKey st.cfg.perc fts fcv (y.store k)).2
+      ({ st with sys := some (step st.cfg t y (.other (.commit k fts fcv))) },
+        (if e = .ok then "ok" else "err:" ++ e.str) ++ "\t*")
+    | _, _, _ => (st, "bad-op")
+  | ["foreignresolve", k, fts, fcv] => withSys st fun t y =>
+    match natOf? k, natOf? fts, natOf? fcv with
+    | some k, some fts, some fcv =>
+      let n := match (y.store k).lock with | some l => if l.ts = fts then 1 else 0 | none => 0
+      let e := (resolveKey fts fcv (y.store k)).2
+      ({ st with sys := some (step st.cfg t y (.other (.resolve k fts fcv))) },
+        (if e = .ok then s!"ok:{n}" else "err:" ++ e.str) ++ "\t*")
+    | _, _, _ => (st, "bad-op")
+  | ["foreigncheck", k, fts, cur] => withSys st fun t y =>
+    match natOf? k, natOf? fts, natOf? cur with
+    | some k, some fts, some cur =>
+      let r := (checkTxnStatus fts cur (y.store k)).2
+      ({ st with sys := some (step st.cfg t y (.other (.check k fts cur))) }, r.str ++ "\t*")
+    | _, _, _ => (st, "bad-op")
   | ["get", k, v] => withSys st fun _ y =>
     match natOf? k, natOf? v with
     | some k, some v => (st, (get st.cfg.perc (y.store k) v).str ++ "\t*")
